@@ -77,16 +77,22 @@ struct Cfg {
     pred: u8,
     /// string arguments with multi-byte characters
     wide: bool,
+    /// k > 0: every string argument ends in SUFFIXES[k] (line ends, tabs, blanks, the replacement character, a quote or a
+    /// backslash behind a multi-byte character)
+    suffix: u8,
     /// 1: the function's result type id is DECLARED as a 32-bit int; 2: declared as void; 3: the function was ended and
     /// re-selected, the call goes into a block begun afterwards; 4: an EARLIER function exists whose blocks carry as
     /// labels every id the measured call passes (ids of another function's blocks are just ids); 5: an earlier, finished
     /// function named "main" exists and is switched to BY NAME while the block of the second function is still open: no
     /// block of "main" is open, so every block-level call must fail and change nothing; 6 / 7: the function's type id is
     /// declared as an OpTypeFunction returning a declared 32-bit int / void
-    fn_kind: u8,
+    /// 1000 + k: the function's id is declared as an ENTRY POINT of the k-th execution model before the function is begun
+    fn_kind: u32,
     /// a second, terminated block exists behind the one the call is made into (with reselect_terminated: the FIRST block is re-selected)
     two_blocks: bool,
 }
+
+const SUFFIXES: [&str; 9] = ["", "\n", "\r\n", "\t", " ", "\u{fffd}", "\u{e9}\"", "\u{65e5}\\", "\u{1}"];
 
 fn needs_block(site: &CallSite) -> bool {
     matches!(site.file, "autogen_norm_insts.rs" | "autogen_terminator.rs") || site.name == "ext_inst"
@@ -125,6 +131,7 @@ fn check_site(site: &CallSite, cfg: &Cfg) -> SiteResult {
     }
     args.ip_override = cfg.ip;
     args.wide_strings = cfg.wide;
+    args.string_suffix = SUFFIXES[cfg.suffix as usize % SUFFIXES.len()];
     args.lit64_pairs = cfg.narrow == Some(64);
     // ids are taken from the builder: a pool of 320 is reserved up front and the arguments are drawn from it
     args.word_base = 1;
@@ -137,7 +144,7 @@ fn check_site(site: &CallSite, cfg: &Cfg) -> SiteResult {
     let rep = json!({"kind": "builder-call", "method": site.name, "config": cfg_s, "cfg": {
         "explicit_id": cfg.explicit_id, "opt_upto": if cfg.opt_upto == usize::MAX { -1i64 } else { cfg.opt_upto as i64 }, "list_len": cfg.list_len,
         "choice_at": cfg.choice_at.map(|(a, b)| vec![a, b]), "in_block": cfg.in_block, "insert_begin": cfg.insert_begin,
-        "version_late": cfg.version_late, "prior_identical": cfg.prior_identical, "reselect_terminated": cfg.reselect_terminated, "narrow": cfg.narrow, "ip": cfg.ip.map(|(a, b)| json!([a, b])), "no_label": cfg.no_label, "two_blocks": cfg.two_blocks, "pred": cfg.pred, "wide": cfg.wide, "fn_kind": cfg.fn_kind}});
+        "version_late": cfg.version_late, "prior_identical": cfg.prior_identical, "reselect_terminated": cfg.reselect_terminated, "narrow": cfg.narrow, "ip": cfg.ip.map(|(a, b)| json!([a, b])), "no_label": cfg.no_label, "two_blocks": cfg.two_blocks, "pred": cfg.pred, "wide": cfg.wide, "suffix": cfg.suffix, "fn_kind": cfg.fn_kind}});
     let mut out = SiteResult { viols: vec![], c16: vec![], outcome: "checked" };
     // a parameterised mask whose parameters cannot be expressed through this method's signature: the single
     // `additional_params` list comes after a LATER value parameter, so the grammar order is not reachable
@@ -212,6 +219,14 @@ fn check_site(site: &CallSite, cfg: &Cfg) -> SiteResult {
                 b.end_function().map_err(|e| ("setup".to_string(), format!("{:?}", e)))?;
                 b.name(f0, "main");
                 b.name(fid, "helper");
+            }
+            if cfg.fn_kind >= 1000 {
+                let models = &g.enums["ExecutionModel"].variants;
+                let m = models[(cfg.fn_kind - 1000) as usize % models.len()].1;
+                if let Some(model) = spirv::ExecutionModel::from_u32(m) {
+                    b.entry_point(model, fid, "main", vec![]);
+                    b.execution_mode(fid, spirv::ExecutionMode::LocalSize, vec![1, 1, 1]);
+                }
             }
             match cfg.fn_kind {
                 1 => {
@@ -469,7 +484,7 @@ fn check_site(site: &CallSite, cfg: &Cfg) -> SiteResult {
 }
 
 fn configs(site: &CallSite, tier: Tier) -> Vec<Cfg> {
-    let base = Cfg { explicit_id: false, opt_upto: usize::MAX, list_len: 2, choice_at: None, in_block: false, insert_begin: false, version_late: false, prior_identical: false, reselect_terminated: false, narrow: None, ip: None, no_label: false, two_blocks: false, pred: 0, wide: false, fn_kind: 0 };
+    let base = Cfg { explicit_id: false, opt_upto: usize::MAX, list_len: 2, choice_at: None, in_block: false, insert_begin: false, version_late: false, prior_identical: false, reselect_terminated: false, narrow: None, ip: None, no_label: false, two_blocks: false, pred: 0, wide: false, suffix: 0, fn_kind: 0 };
     let mut v = vec![base.clone(), Cfg { version_late: true, ..base.clone() }];
     let has_id = site.params.iter().any(is_result_id_param);
     let has_ip = site.params.iter().any(|p| p.ty == Ty::InsertPoint);
@@ -514,9 +529,15 @@ fn configs(site: &CallSite, tier: Tier) -> Vec<Cfg> {
         for pred in 1..=4 {
             v.push(Cfg { pred, ..base.clone() });
         }
+        for k in 0..golden().enums["ExecutionModel"].variants.len() as u32 {
+            v.push(Cfg { fn_kind: 1000 + k, ..base.clone() });
+        }
     }
     if site.params.iter().any(|p| matches!(p.ty, Ty::Str | Ty::OptStr)) {
         v.push(Cfg { wide: true, ..base.clone() });
+        for suffix in 1..SUFFIXES.len() as u8 {
+            v.push(Cfg { suffix, ..base.clone() });
+        }
     }
     if has_ip {
         for ip in [(true, 0), (true, 1), (true, 2), (false, 0), (false, 1), (false, 2)] {
@@ -577,12 +598,17 @@ enum HOp {
     Kill,
     EndFunction,
     SetVersion,
+    /// select_function(None) while a function is open and no block is: the function stays unfinished for now
+    SelectNone,
+    /// select_function(Some(0)) / select_function(Some(last)): back into an earlier / the latest function
+    SelectFirst,
+    SelectLast,
 }
 
-const HOPS: [HOp; 27] = [
+const HOPS: [HOp; 30] = [
     HOp::Capability, HOp::ExtInstImport, HOp::MemoryModel, HOp::EntryPoint, HOp::ExecutionMode, HOp::DebugString, HOp::Name, HOp::ModuleProcessed,
     HOp::Decorate, HOp::TypeVoid, HOp::TypeInt64, HOp::Constant64, HOp::Variable, HOp::Line, HOp::NoLine, HOp::Switch64, HOp::ReserveId, HOp::UndefReserved, HOp::SwitchReserved, HOp::BeginFunction, HOp::Parameter, HOp::BeginBlock,
-    HOp::IAdd, HOp::Ret, HOp::Kill, HOp::EndFunction, HOp::SetVersion,
+    HOp::IAdd, HOp::Ret, HOp::Kill, HOp::EndFunction, HOp::SetVersion, HOp::SelectNone, HOp::SelectFirst, HOp::SelectLast,
 ];
 
 /// applies one call; false = the call failed (state unchanged) or is not enabled
@@ -595,6 +621,9 @@ struct HState {
     /// an id reserved with id() early and given to a 64-bit OpUndef later (a value whose id is smaller than ids defined before it)
     reserved: Option<u32>,
     late: Option<u32>,
+    /// model of the function brackets: open[i] = function i has been begun and not ended; sel = the selected function
+    open: Vec<bool>,
+    sel: Option<usize>,
 }
 
 fn apply(b: &mut Builder, o: HOp, st: &mut HState) -> bool {
@@ -666,7 +695,37 @@ fn apply(b: &mut Builder, o: HOp, st: &mut HState) -> bool {
             }
             b.set_version(1, 4)
         }
-        HOp::BeginFunction => return b.begin_function(50, None, spirv::FunctionControl::INLINE, 51).is_ok(),
+        HOp::BeginFunction => {
+            if b.begin_function(50, None, spirv::FunctionControl::INLINE, 51).is_err() {
+                return false;
+            }
+            st.open.push(true);
+            st.sel = Some(st.open.len() - 1);
+        }
+        HOp::SelectNone => {
+            if b.selected_function().is_none() || b.selected_block().is_some() {
+                return false;
+            }
+            if b.select_function(None).is_err() {
+                return false;
+            }
+            st.sel = None;
+        }
+        HOp::SelectFirst | HOp::SelectLast => {
+            let n = b.module_ref().functions.len();
+            if n == 0 || b.selected_block().is_some() {
+                return false;
+            }
+            let idx = if o == HOp::SelectFirst { 0 } else { n - 1 };
+            // only functions that are still open are re-entered (a finished function is not continued here)
+            if b.selected_function() == Some(idx) || !st.open.get(idx).copied().unwrap_or(false) {
+                return false;
+            }
+            if b.select_function(Some(idx)).is_err() {
+                return false;
+            }
+            st.sel = Some(idx);
+        }
         HOp::Parameter => {
             // parameters after the first block would be assembled before it: only before any block
             if b.selected_function().map_or(true, |f| !b.module_ref().functions[f].blocks.is_empty()) {
@@ -683,13 +742,19 @@ fn apply(b: &mut Builder, o: HOp, st: &mut HState) -> bool {
             if b.selected_block().is_some() {
                 return false;
             }
-            return b.end_function().is_ok();
+            if b.end_function().is_err() {
+                return false;
+            }
+            if let Some(i) = st.sel {
+                st.open[i] = false;
+            }
+            st.sel = None;
         }
     }
     true
 }
 
-fn build(h: &[HOp]) -> Option<Builder> {
+fn build(h: &[HOp]) -> Option<(Builder, HState)> {
     let mut b = Builder::new();
     let mut t64 = HState::default();
     for o in h {
@@ -697,19 +762,20 @@ fn build(h: &[HOp]) -> Option<Builder> {
             return None;
         }
     }
-    Some(b)
+    Some((b, t64))
 }
 
 fn check_history(h: &[HOp]) -> (Option<Viol>, bool, Option<u64>) {
     let rep = json!({"kind": "builder-history", "history": h.iter().map(|o| format!("{:?}", o)).collect::<Vec<_>>()});
     let r = guarded(|| -> Result<(bool, Option<u64>), String> {
-        let Some(b) = build(h) else { return Ok((false, None)) };
-        let complete = b.selected_function().is_none() && b.selected_block().is_none();
+        let Some((b, st)) = build(h) else { return Ok((false, None)) };
+        // complete: nothing selected AND (by the bracket model) every function that was begun has been ended
+        let complete = b.selected_function().is_none() && b.selected_block().is_none() && st.open.iter().all(|o| !*o);
         use std::hash::{Hash, Hasher};
         let s = snap(b.module_ref());
         let mut hs = std::collections::hash_map::DefaultHasher::new();
         s.hash(&mut hs);
-        (b.selected_function(), b.selected_block(), b.version()).hash(&mut hs);
+        (b.selected_function(), b.selected_block(), b.version(), &st.open).hash(&mut hs);
         let key = hs.finish();
         if !complete {
             return Ok((false, Some(key)));
@@ -964,7 +1030,8 @@ fn main() {
                     two_blocks: c["two_blocks"].as_bool().unwrap_or(false),
                     pred: c["pred"].as_u64().unwrap_or(0) as u8,
                     wide: c["wide"].as_bool().unwrap_or(false),
-                    fn_kind: c["fn_kind"].as_u64().unwrap_or(0) as u8,
+                    suffix: c["suffix"].as_u64().unwrap_or(0) as u8,
+                    fn_kind: c["fn_kind"].as_u64().unwrap_or(0) as u32,
                 };
                 let res = check_site(site, &cfg);
                 Some(res.viols.iter().chain(res.c16.iter()).map(|v| v.what.clone()).collect())
@@ -1051,6 +1118,9 @@ fn main() {
         vec![HOp::TypeInt64, HOp::Constant64, HOp::BeginFunction, HOp::BeginBlock, HOp::Ret, HOp::EndFunction],
         vec![HOp::TypeInt64, HOp::ReserveId, HOp::Constant64, HOp::BeginFunction, HOp::BeginBlock, HOp::IAdd, HOp::IAdd],
         vec![HOp::TypeInt64, HOp::Constant64, HOp::BeginFunction, HOp::BeginBlock, HOp::Ret, HOp::EndFunction, HOp::BeginFunction, HOp::BeginBlock],
+        // headers first, bodies later: two functions begun one after the other, neither ended yet
+        vec![HOp::BeginFunction, HOp::SelectNone, HOp::BeginFunction],
+        vec![HOp::BeginFunction, HOp::Parameter, HOp::SelectNone, HOp::BeginFunction, HOp::SelectNone, HOp::BeginFunction],
     ] {
         let (s2, t2, c2) = histories_from(&root, tier.pick(5, 6), &mut run);
         states += s2;
